@@ -131,7 +131,7 @@ def corpus_cases(ifaces):
 
 def cases(tier, rng, ifaces):
     out = []
-    names = ['echo', 't1', 'a1'] + sorted(n for n in ifaces if n.startswith('r'))
+    names = ['echo', 't1', 'a1', 'g1'] + sorted(n for n in ifaces if n.startswith('r'))
     n = 2500 if tier == 'quick' else 30000
     for i in range(n):
         iface = ifaces[rng.choice(names)]
